@@ -522,6 +522,7 @@ func RS(rc *RC) {
 // transposition and view marker dropped) or that they created themselves; a WithIncr tensor is
 // added to afterwards by the layout-aware Add (handleIncr). A destination that reaches the
 // engine call from the options by any other way has not been normalised.
+var lpVar = regexp.MustCompile(`^[%$][A-Za-z_]\w*$`)
 var lpCall = regexp.MustCompile(`[%$]\w+\.(MatVecMul|MatMul|Outer)\(`)
 
 func LP(rc *RC) {
@@ -562,7 +563,24 @@ func LP(rc *RC) {
 			}
 			sites++
 			z := args[2]
-			ds := defs[z]
+			// follow plain copies (dst := handleReuse(...); retVal = dst)
+			var ds []string
+			seen := map[string]bool{}
+			var follow func(v string)
+			follow = func(v string) {
+				if seen[v] {
+					return
+				}
+				seen[v] = true
+				for _, d := range defs[v] {
+					if lpVar.MatchString(d) {
+						follow(d)
+					} else {
+						ds = append(ds, d)
+					}
+				}
+			}
+			follow(z)
 			if len(ds) == 0 {
 				bad = append(bad, fmt.Sprintf("%s: the destination %s is not a variable this function assigned", strings.TrimSpace(txt), z))
 				return
@@ -687,6 +705,11 @@ func NC(rc *RC) {
 // three literals "(", ", " and ")" are checked to be there), the patterns are compiled by the
 // analyser, and each pattern must match each header with the expected capture. No code of the
 // library runs.
+var (
+	f7Verb = regexp.MustCompile(`%[vdsq]`)
+	f7OneD = regexp.MustCompile(`\(%[vds],\)`)
+)
+
 func F7(rc *RC) {
 	rc.S.Declare("F7", "npy header agreement: every header WriteNpy's format strings can produce (ranks 0-4) is matched by ReadNpy's description, order and shape patterns, the shape pattern capturing exactly the inside of the tuple (constants of the program evaluated by the analyser)", 1)
 	w := anchor(rc, "F7", "tensor.(*Dense).WriteNpy")
@@ -805,18 +828,29 @@ func F7(rc *RC) {
 	var bad []string
 	checked := 0
 	for _, fm := range formats {
-		oneD := strings.Contains(fm, "(%d,)")
+		oneD := f7OneD.MatchString(fm)
 		for _, s := range shapes {
 			if oneD != (len(s) == 1) {
 				continue
 			}
 			in := inner(s, oneD)
-			h := fm
-			h = strings.Replace(h, "%v", "f8", 1)
-			if oneD {
-				h = strings.Replace(h, "%d", strconv.Itoa(s[0]), 1)
-			} else {
-				h = strings.Replace(h, "%v", "("+in+")", 1)
+			// the first verb is the element type, the second the shape (or its only dimension)
+			k := 0
+			h := f7Verb.ReplaceAllStringFunc(fm, func(string) string {
+				k++
+				switch {
+				case k == 1:
+					return "f8"
+				case k == 2 && oneD:
+					return strconv.Itoa(s[0])
+				case k == 2:
+					return "(" + in + ")"
+				}
+				return ""
+			})
+			if k != 2 {
+				rc.S.Undec("F7", "tensor.(*Dense).WriteNpy#formats", pos, fmt.Sprintf("the header format %q has %d verbs, not the two (element type, shape) this rule instantiates", fm, k))
+				return
 			}
 			checked++
 			if m := byRole["descr"].FindStringSubmatch(h); m == nil || m[1] != "<f8" {
@@ -903,6 +937,7 @@ func F8(rc *RC) {
 // only other exit is the early answer for a tensor without a mask.
 var miFuncs = []string{"tensor.(*Dense).FlatNotMaskedEdges", "tensor.(*Dense).FlatMaskedEdges", "tensor.(*Dense).FlatNotMaskedContiguous", "tensor.(*Dense).FlatMaskedContiguous"}
 var miIter = regexp.MustCompile(`Iterator`)
+var miMethod = regexp.MustCompile(`\$r\.([A-Za-z_]\w*)\(`)
 var miWhole = regexp.MustCompile(`[(,] ?\$r[,)]`)
 
 func MI(rc *RC) {
@@ -945,6 +980,11 @@ func MI(rc *RC) {
 				for _, st := range p.Steps {
 					if miWhole.MatchString(st.Head) {
 						handsOver = true // a callee that receives the tensor could build the iterator itself
+					}
+					for _, m := range miMethod.FindAllStringSubmatch(st.Head, -1) {
+						if rc.NewHelpers()[m[1]] {
+							handsOver = true // so could a new method of the tensor
+						}
 					}
 				}
 				bad = append(bad, fmt.Sprintf("the path [%s] returns %s for a masked tensor without an iterator over it: positions read off the mask in storage order are not positions of the logical tensor when it is transposed, column-major or a view", strings.Join(p.Guards, " && "), firstN(p.Ret, 60)))
@@ -1107,18 +1147,27 @@ func CVI(rc *RC) {
 			if !ok {
 				return
 			}
+			signs := map[int]bool{}
 			for _, s2 := range infIn(info, body) {
-				k++
-				n++
-				key := fmt.Sprintf("%s#inf%d", fi.Key, k)
-				switch {
-				case s == 0:
-					rc.S.Viol("CVI", key, rc.P.Pos(at), fmt.Sprintf("%s is true for both infinities, and the branch yields the infinity of sign %+d for both: the sign of the other one is lost", types.ExprString(cond), s2)).Firm = true
-				case s != s2 && s2 != 0:
-					rc.S.Viol("CVI", key, rc.P.Pos(at), fmt.Sprintf("%s selects an infinity of sign %+d and the branch yields the one of sign %+d", types.ExprString(cond), s, s2)).Firm = true
-				default:
-					rc.S.Ok("CVI", key, rc.P.Pos(at), fmt.Sprintf("%s yields the infinity of the same sign", types.ExprString(cond)))
+				signs[s2] = true
+			}
+			if len(signs) == 0 {
+				return
+			}
+			k++
+			n++
+			key := fmt.Sprintf("%s#inf%d", fi.Key, k)
+			switch {
+			case s == 0 && len(signs) == 1:
+				// one fixed-sign infinity for both (a branch that yields both signs selects between
+				// them by a test of its own)
+				for s2 := range signs {
+					rc.S.Viol("CVI", key, rc.P.Pos(at), fmt.Sprintf("%s is true for both infinities, and the branch yields only the infinity of sign %+d: the sign of the other one is lost", types.ExprString(cond), s2)).Firm = true
 				}
+			case s != 0 && !signs[s]:
+				rc.S.Viol("CVI", key, rc.P.Pos(at), fmt.Sprintf("%s selects an infinity of sign %+d and the branch yields only the one of the opposite sign", types.ExprString(cond), s)).Firm = true
+			default:
+				rc.S.Ok("CVI", key, rc.P.Pos(at), fmt.Sprintf("%s yields the infinity of the tested sign (or selects between both signs itself)", types.ExprString(cond)))
 			}
 		}
 		ast.Inspect(fi.Decl.Body, func(m ast.Node) bool {
